@@ -25,14 +25,16 @@ type c18Case struct {
 	Regex   string   `json:"regex,omitempty"`
 	CRLF    bool     `json:"crlf,omitempty"`
 	FinalNL bool     `json:"final_nl,omitempty"`
-	Pattern string   `json:"pattern"` // how duplicates were laid out
+	Pattern string   `json:"pattern"`         // how duplicates were laid out
+	Again   int      `json:"again,omitempty"` // rediscoveries in the same process
 }
 
 var mu sync.Mutex
 
 type c18Result struct {
-	List  []string `json:"list"`
-	Panic string   `json:"panic,omitempty"`
+	List  []string   `json:"list"`
+	Again [][]string `json:"again,omitempty"`
+	Panic string     `json:"panic,omitempty"`
 }
 
 func init() {
@@ -155,6 +157,9 @@ func c18Gen(rng *rand.Rand) c18Case {
 	if len(c.Entries) == 0 {
 		c.FinalNL = false
 	}
+	if rng.Intn(3) == 0 {
+		c.Again = 1 + rng.Intn(3)
+	}
 	return c
 }
 
@@ -197,6 +202,29 @@ func c18Child(args []string) int {
 		res.List = d.ServerList()
 		if res.List == nil {
 			res.List = []string{}
+		}
+		// the same source discovered again in the same process (scheduled and
+		// continuous server jobs do this): every discovery must be right
+		if c.Again > 0 {
+			for k := 0; k < c.Again; k++ {
+				var d2 *discovery.Discovery
+				switch c.Kind {
+				case "comma":
+					d2 = discovery.New("", strings.Join(c.Entries, ","), discovery.Shuffle)
+				case "file":
+					d2 = discovery.New("", filepath.Join(dir, fmt.Sprintf("servers-%d.txt", i)), discovery.Shuffle)
+				case "module":
+					d2 = discovery.New("veriffile:"+filepath.Join(dir, fmt.Sprintf("servers-%d.txt", i)), "/"+c.Regex+"/", discovery.Shuffle)
+				}
+				l := d2.ServerList()
+				if k%2 == 1 {
+					l = d.ServerList() // and the same object asked twice
+				}
+				if l == nil {
+					l = []string{}
+				}
+				res.Again = append(res.Again, l)
+			}
 		}
 		return res
 	})
@@ -250,6 +278,16 @@ func c18(r *vlib.Run) int {
 			r.Violation("list-mismatch", map[string]interface{}{
 				"case": c, "got": clipStrings(got, 50), "want": clipStrings(want, 50),
 				"got_len": len(got), "want_len": len(want)})
+		}
+		for k, l := range res.Again {
+			g := append([]string(nil), l...)
+			sort.Strings(g)
+			r.Count("rediscoveries_checked", 1)
+			if !equalStrings(g, want) {
+				r.Violation("rediscovery-list-mismatch", map[string]interface{}{"case": c, "rediscovery": k + 1,
+					"got": clipStrings(g, 50), "want": clipStrings(want, 50), "got_len": len(g), "want_len": len(want)})
+				break
+			}
 		}
 		if len(want) < len(c.Entries) {
 			r.Count("cases_with_duplicates_or_filtered", 1)
